@@ -132,6 +132,9 @@ fn run_c11(r: &mut Rng, n: u64) {
               b"gggggggggggggA", b"2ggggggggggggA", b"AgggggggggggggA", b"ggggggggggggA", b"ggggggggggggQ", b"ggggggggggggggggggggA", b"hgggggggggggggA"] { vlq_parse_case(&format!("x{}", k), w); k += 1; }
     // every length 1..16 of zero-payload continuation digits closed by each kind of last digit
     for n in 1..17 { for last in [b'A', b'B', b'P', b'Q', b'f'] { let mut w = vec![b'g'; n]; w.push(last); vlq_parse_case(&format!("x{}", k), &w); k += 1; let mut w2 = vec![b'A']; w2.extend(vec![b'h'; n]); w2.push(last); vlq_parse_case(&format!("x{}", k), &w2); k += 1; } }
+    // the alphabet table, byte by byte ("all 256 byte values": the ASCII half here, as a digit in front of a terminator; bytes >= 0x80 cannot stand
+    // alone in a &str and are fed through the decoder in the decode_faults stream): a byte is a digit exactly when it is one of the 64
+    for b in 0u8..128 { vlq_parse_case(&format!("t{}", b), &[b, b'A']); vlq_parse_case(&format!("t{}b", b), &[b'C', b]); }
     let ext: Vec<u8> = alpha.iter().cloned().chain([b'!', b'-', b'_', 0x7f, b'=']).collect();
     for &a in &ext { vlq_parse_case(&format!("x{}", k), &[a]); k += 1; for &b in &ext { vlq_parse_case(&format!("x{}", k), &[a, b]); k += 1; } }
     for p in 0..62 { for d in [-1i64, 0, 1] { let v = (1i64 << p) + d; if v.unsigned_abs() < (1u64 << 62) { vlq_gen_case(&format!("x{}", k), &[v]); k += 1; vlq_gen_case(&format!("x{}", k), &[-v]); k += 1; } } }
@@ -301,7 +304,7 @@ fn map_obs(sm: &sourcemap::SourceMap) -> String {
 }
 fn gen_map(r: &mut Rng, sorted_sources: bool) -> sourcemap::SourceMap {
     let spool = ["a.js", "b.js", "", "/abs/c.js", "http://x/d.js", "/abs/e/f.js", "a.js", "q/\u{e9}.js", "https:g.js", "http:h.js", "/absolute/z.js", "/abs", "http://xy/w.js",
-        "src/\u{e9}.js", "\u{65e5}\u{672c}\u{8a9e}.js", "app/\u{1f600}.js", "webpack:///./src/a.js?abcd", "lib/x>y~.js", "e.js", "/abs/a.js", "Http://x/d.js", "/work/a/i.js", "/work/b/i.js", "/abs/a.js", "/work/a/i.js", "C:\\x\\y.js", "c:/x/z.js", "C:\\x\\w\\v.js", "1:/n.js", "/x.js", "/y.js", "/abs/dir/", "dir/", "/src/\u{e9}.js", "/src/\u{ea}.js", "/src/\u{65e5}.js", "/src/\u{65e9}.js", "dir\\", "C:\\proj\\"];
+        "src/\u{e9}.js", "\u{65e5}\u{672c}\u{8a9e}.js", "app/\u{1f600}.js", "webpack:///./src/a.js?abcd", "lib/x>y~.js", "e.js", "/abs/a.js", "Http://x/d.js", "/work/a/i.js", "/work/b/i.js", "/abs/a.js", "/work/a/i.js", "C:\\x\\y.js", "c:/x/z.js", "C:\\x\\w\\v.js", "1:/n.js", "/x.js", "/y.js", "/abs/dir/", "dir/", "/src/\u{e9}.js", "/src/\u{ea}.js", "/src/\u{65e5}.js", "/src/\u{65e9}.js", "dir\\", "C:\\proj\\", "./a.js", "./b.js"];
     let npool = ["x", "y", "", "fn", "x", "\u{1f44c}ok", "caf\u{e9}", "a>b?c~", "q\\", "\\\""];
     let nsrc = 1 + r.below(4) as usize; let nn = r.below(4) as usize;
     let srcs: Vec<&str> = (0..nsrc).map(|i| if sorted_sources { spool[i] } else { spool[r.below(spool.len() as u64) as usize] }).collect();
@@ -309,6 +312,8 @@ fn gen_map(r: &mut Rng, sorted_sources: bool) -> sourcemap::SourceMap {
     let mut toks = gen_toks(r, nsrc as u32, nn as u32, 10, true); toks.sort_by_key(|t| (t.dl, t.dc));
     let contents: Vec<Option<std::sync::Arc<str>>> = (0..nsrc).map(|i| match r.below(9) { 0 => Some("".into()), 1..=3 => Some(format!("content{}", i).into()), 4 => Some(format!("{}x=>y??z~\u{1f44c}\u{e9}", &"ab"[..i % 3]).into()), 5 if i % 2 == 0 => Some("ends in a backslash \\".into()), _ => None }).collect();
     let raw: Vec<sourcemap::RawToken> = toks.iter().map(|t| sourcemap::RawToken { dst_line: t.dl, dst_col: t.dc, src_line: t.sl, src_col: t.sc, src_id: t.src, name_id: t.name, is_range: t.range }).collect();
+    // the contents list handed over may be shorter than the sources (a builder whose contents were set before more sources were added)
+    let contents = if r.below(6) == 0 && nsrc >= 2 { contents[..1 + r.below(nsrc as u64 - 1) as usize].to_vec() } else { contents };
     let mut sm = sourcemap::SourceMap::new(match r.below(5) { 0 | 1 => Some("out.js".into()), 2 => Some("\u{1f600}>.js".into()), _ => None }, raw, names.iter().map(|s| (*s).into()).collect(), srcs.iter().map(|s| (*s).into()).collect(), if r.below(3) == 0 { None } else { Some(contents) });
     if r.below(3) == 0 { sm.set_source_root(Some(["", "root", "root/", "webpack:///", "r\u{e9}\u{1f600}/", "/abs"][r.below(6) as usize])); }
     for i in 0..nsrc as u32 { if r.below(5) == 0 { sm.add_to_ignore_list(i); } }
@@ -452,10 +457,14 @@ fn run_hdr(r: &mut Rng, n: u64) {
         // garbage that is not UTF-8 (Latin-1 text, a lone continuation byte, a truncated sequence): the header is skipped byte-wise on every path
         b")]}'\xff\xfe\n", b"]caf\xe9\r\n", b"}\x80\n", b"'\xe2\x82\n", b")\xf0\x9f\r\n", b"]\xc3\r",
         // a byte order mark in front of the document or of the header (not JSON, not a junk start byte: whatever one path does, the other does)
-        b"\xef\xbb\xbf", b"\xef\xbb\xbf)]}'\n", b"\xef\xbb", b"\xfe\xff"];
+        b"\xef\xbb\xbf", b"\xef\xbb\xbf)]}'\n", b"\xef\xbb", b"\xfe\xff",
+        // garbage that looks like the beginning of a document
+        b")]}' {generated}\n", b"){\"version\":3}\r\n", b"]{\n", b"'[{\n"];
     for i in 0..n {
         let body = bodies[if r.below(3) == 0 { r.below(bodies.len() as u64) as usize } else { 0 }];
         let mut doc = headers[r.below(headers.len() as u64) as usize].to_vec();
+        if r.below(10) == 0 && doc.ends_with(b"\n") && doc.len() > 1 && doc.len() < 12 && !doc[..doc.len() - 1].contains(&b'\n') { let crlf = doc.ends_with(b"\r\n"); let tail = if crlf { 2 } else { 1 }; let body_len = 120 + r.below(16) as usize;   // a header line of 120..135 bytes (limits tend to sit at powers of two)
+            let mut h = doc[..doc.len() - tail].to_vec(); while h.len() < body_len { h.push(b'k'); } h.extend(if crlf { &b"\r\n"[..] } else { &b"\n"[..] }); doc = h; }
         if r.below(12) == 0 && doc.ends_with(b"\n") && doc.len() > 1 && !doc[..doc.len() - 1].contains(&b'\n') && !doc.contains(&b'\r') { let nl = doc.pop().unwrap(); doc.extend(std::iter::repeat(b'j').take(8190 + r.below(5) as usize)); doc.push(nl); }   // a header line of about 8 KiB
         let cut = [0usize, 0, 0, 1, 7][r.below(5) as usize].min(body.len()); doc.extend_from_slice(&body[..body.len() - cut]);
         // reads: mostly short; sometimes a first read that ends exactly after the header line, or one big read
@@ -524,7 +533,7 @@ fn run_fname_gen(r: &mut Rng, n: u64, any_col: bool) {
         } }
     }
     let words = ["function", "a", "ab", "\u{e9}", "a\u{e9}", "\u{1D49C}x", "$", "_1", "x\u{200d}y", "(", ")", "{", "}", "\u{1F44C}", "1", " ", "\t", "\u{a0}", ";", "function", "function", "function", "var", ",",
-        "a\u{301}", "ab\u{661}", "a\u{203f}b", "a\u{b7}b", "\u{301}", "\u{b7}"];
+        "a\u{301}", "ab\u{661}", "a\u{203f}b", "a\u{b7}b", "\u{301}", "\u{b7}", "\u{feff}", "\u{feff}"];   // U+FEFF is a character like any other, also in front of everything
     let cands = ["a", "ab", "\u{e9}", "a\u{e9}", "function", "\u{1D49C}x", "x\u{200d}y", "1a", "a b", "", "_1", "$", "a\u{301}", "ab\u{661}", "a\u{203f}b", "a\u{b7}b", "\u{301}a"];
     for i in 0..n {
         let long = i % 10 == 0;
@@ -550,7 +559,9 @@ fn run_fname_gen(r: &mut Rng, n: u64, any_col: bool) {
         let text = lines.join("\n"); let sv = sourcemap::SourceView::new(text.clone().into());
         toks.sort_by_key(|t| (t.dl, t.dc));
         if toks.is_empty() { continue; }
-        let sm = build_map(1, 4, &toks); let sorted: Vec<Tok> = sm.tokens().map(|t| raw_of(&t)).collect();
+        // the tokens come from two original files (a helper inlined into a function), some from none: the walk over the minified text does not care
+        if i % 3 == 0 { for t in toks.iter_mut() { match r.below(6) { 0 | 1 => { t.src = 1; } 2 => { t.src = !0; t.name = !0; } _ => {} } } }
+        let sm = build_map(2, 4, &toks); let sorted: Vec<Tok> = sm.tokens().map(|t| raw_of(&t)).collect();
         for q in 0..6 {
             let ti = r.below(sorted.len() as u64) as usize;
             let here = wordat.iter().find(|w| w.0 == sorted[ti].dl && w.1 == sorted[ti].dc).map(|w| w.2.clone());
@@ -676,7 +687,8 @@ fn run_decode(r: &mut Rng, n: u64, with_faults: bool) {
         let ignore: Option<Vec<u32>> = if r.below(4) == 0 { Some((0..r.below(3)).map(|_| r.below(5) as u32).collect()) } else { None };
         if let Some(x) = &ignore { keys.push(("ignoreList", serde_json::json!(x))); }
         let dbg = |k: u64| format!("00000000-0000-0000-0000-0000000000{:02x}", k);
-        let d1 = if r.below(4) == 0 { Some(1 + r.below(3)) } else { None }; let d2 = if r.below(4) == 0 { Some(4 + r.below(3)) } else { None };
+        // 0 is the nil id: an id like any other, under either key
+        let d1 = if r.below(4) == 0 { Some(r.below(4)) } else { None }; let d2 = if r.below(4) == 0 { Some([0u64, 4, 5, 6][r.below(4) as usize]) } else { None };
         if let Some(k) = d1 { keys.push(("debug_id", serde_json::json!(dbg(k)))); }
         if let Some(k) = d2 { keys.push(("debugId", serde_json::json!(dbg(k)))); }
         if r.below(5) == 0 { keys.push(("x_unknown", serde_json::json!({"a": [1, 2]}))); }
@@ -697,7 +709,7 @@ fn run_decode(r: &mut Rng, n: u64, with_faults: bool) {
         // the reader entry points on the same document, read in small or large chunks, with and without a junk header that arrives in
         // its own reads (or is longer than any buffer): same outcome as the slice entry point
         let out = { let short = |x: Result<sourcemap::DecodedMap, sourcemap::Error>| match x { Ok(sourcemap::DecodedMap::Regular(m)) => format!("ok {}#{}", map_obs(&m), m.get_debug_id().map(|d| d.to_string()).unwrap_or("-".into())), Ok(_) => "ok other-kind".into(), Err(e) => format!("err {}", err_name(&e)) };
-            let header: Vec<u8> = match r.below(5) { 0 => b")]}'\n".to_vec(), 1 => { let mut h = b")]}' ".to_vec(); h.extend(std::iter::repeat(b'x').take(9000)); h.push(b'\n'); h } 2 => b"]garbage \xff\xfe\r\n".to_vec(), _ => vec![] };
+            let header: Vec<u8> = match r.below(5) { 0 => b")]}'\n".to_vec(), 1 => { let mut h = b")]}' ".to_vec(); h.extend(std::iter::repeat(b'x').take(9000)); h.push(b'\n'); h } 2 => b"]garbage \xff\xfe\r\n".to_vec(), 3 if r.below(2) == 0 => b")]}' {generated} [x]\n".to_vec(), _ => vec![] };
             let mut with_header = header.clone(); with_header.extend(&text);
             let sizes = match r.below(4) { 0 => vec![1], 1 => vec![header.len().max(1), 7], 2 => vec![5, 3, 8192], _ => vec![1 << 20] };
             let via_reader = match catch_unwind(AssertUnwindSafe(|| sourcemap::decode(Chunked { data: &with_header, pos: 0, sizes: sizes.clone(), k: 0 }))) { Ok(x) => short(x), Err(_) => "panic".into() };
@@ -882,7 +894,7 @@ fn run_crash(r: &mut Rng, n: u64) {
     let seeds: Vec<Vec<u8>> = ["adjust_mappings/esbuild.bundle.js.map", "adjust_mappings/rollup.bundle.js.map", "react-native-hermes/output.map", "react-native-metro/output.js.map", "adjust_mappings/vite.bundle.js.map"].iter()
         .filter_map(|f| std::fs::read(format!("{}/tests/fixtures/{}", std::env::var("SM_REPO").unwrap_or("/repo".into()), f)).ok()).filter(|b| b.len() < 200_000).collect();
     let frag = ["\"mappings\"", "\"sources\"", "\"names\"", "\"sections\"", "\"offset\"", "\"line\"", "\"column\"", "\"map\"", "\"x_facebook_sources\"", "\"rangeMappings\"", "\"sourcesContent\"", "\"ignoreList\"", "\"debug_id\"",
-        ":", ",", "{", "}", "[", "]", "null", "3", "-1", "4294967296", "1e400", "\"AAAA\"", "\"AAgggggggggggggB\"", "\"////////////f\"", "\"!\"", "\";;;,,\"", "\"\\ud800\"", "\"a\"", "[[{\"names\":[\"f\"],\"mappings\":\"AAA;g\"}]]", ")]}'\n", " "];
+        "data:application/json,", "data:application/json;charset=utf-8,", "data:application/json;base64,", "%7B", "%7D", "%0", "%", "%zz", "e30=", ":", ",", "{", "}", "[", "]", "null", "3", "-1", "4294967296", "1e400", "\"AAAA\"", "\"AAgggggggggggggB\"", "\"////////////f\"", "\"!\"", "\";;;,,\"", "\"\\ud800\"", "\"a\"", "[[{\"names\":[\"f\"],\"mappings\":\"AAA;g\"}]]", ")]}'\n", " "];
     for i in 0..n {
         // mostly-valid documents get half of the cases: only a map that decodes can be queried, rewritten, flattened and re-encoded
         let kind = [0u64, 1, 2, 3, 3, 4][r.below(6) as usize];
@@ -937,7 +949,9 @@ fn run_crash(r: &mut Rng, n: u64) {
         outln!("BEGIN\tr{}\tcrash\t{}\t{}", i, kind, hex(&input[..input.len().min(4000)]));
         PROGRESS.fetch_add(1, std::sync::atomic::Ordering::Relaxed);
         let class = match catch_unwind(AssertUnwindSafe(|| { let _ = sourcemap::is_sourcemap_slice(&input); let _ = sourcemap::ram_bundle::is_ram_bundle_slice(&input);
-                if let Ok(t) = std::str::from_utf8(&input) { let sv = sourcemap::SourceView::new(t.into()); let _ = (sv.line_count(), sv.get_line(1), sv.get_line_slice(0, 1, u32::MAX), sv.sourcemap_reference().is_ok()); }
+                if let Ok(t) = std::str::from_utf8(&input) { let _ = sourcemap::decode_data_url(t); let _ = sourcemap::decode_data_url(&format!("data:application/json,{}", t)); let _ = sourcemap::decode_data_url(&format!("data:application/json;base64,{}", t));
+                    let _ = sourcemap::SourceMapRef::Ref(t.to_string()).get_embedded_sourcemap();
+                    let sv = sourcemap::SourceView::new(t.into()); let _ = (sv.line_count(), sv.get_line(1), sv.get_line_slice(0, 1, u32::MAX), sv.sourcemap_reference().is_ok()); }
                 match sourcemap::decode_slice(&input) { Ok(dm) => exercise(&dm, &mut r2), Err(_) => "err" } })) { Ok(c) => c.to_string(), Err(_) => "panic".into() };
         outln!("r{}\tcrash\t{}\t{}\t{}", i, kind, hex(&input[..input.len().min(4000)]), class);
     }
@@ -1183,6 +1197,13 @@ fn run_api(r: &mut Rng, n: u64, group: &str) {
                       let sm2 = sourcemap::SourceMap::new(None, raw, names, srcs, None); let toks2: Vec<sourcemap::Token> = sm2.tokens().collect();
                       chk("shuffled construction: ordered", toks2.windows(2).all(|w| w[0].get_dst() <= w[1].get_dst()) && toks2.len() == toks.len());
                       chk("shuffled construction: lookup at token", toks2.iter().all(|t| { let (l, c) = t.get_dst(); match sm2.lookup_token(l, c) { Some(f) => Some(f.get_raw_token()) == toks2.iter().find(|x| x.get_dst() == (l, c)).map(|x| x.get_raw_token()), None => false } })); }
+                    // what a lookup answers depends on the tokens alone: the same map without its embedded contents answers every query alike (C07: inside a range
+                    // the original column advances by the distance from the token, however long the original line is)
+                    { let raw: Vec<sourcemap::RawToken> = toks.iter().map(|t| t.get_raw_token()).collect(); let names: Vec<std::sync::Arc<str>> = sm.names().map(|x| x.into()).collect(); let srcs: Vec<std::sync::Arc<str>> = (0..sm.get_source_count()).map(|k| sm.get_source(k).unwrap().into()).collect();
+                      let bare = sourcemap::SourceMap::new(None, raw, names, srcs, None);
+                      let ans = |m: &sourcemap::SourceMap, l: u32, c: u32| m.lookup_token(l, c).map(|t| (t.get_raw_token(), t.get_src_line(), t.get_src_col(), t.get_dst()));
+                      chk("lookups do not depend on embedded contents", toks.iter().all(|t| { let (l, c) = t.get_dst(); [0u32, 1, 5, 40, 1000, 70000].iter().all(|d| ans(&sm, l, c.saturating_add(*d)) == ans(&bare, l, c.saturating_add(*d))) && ans(&sm, l.saturating_add(1), 0) == ans(&bare, l.saturating_add(1), 0) }));
+                      chk("range offset", toks.iter().all(|t| { let (l, c) = t.get_dst(); [1u32, 5, 1000].iter().all(|d| match sm.lookup_token(l, c.saturating_add(*d)) { Some(f) if f.get_dst() == (l, c) && f.get_raw_token() == t.get_raw_token() && c.checked_add(*d).is_some() => f.get_src_col() == if f.is_range() { f.get_raw_token().src_col.saturating_add(*d) } else { f.get_raw_token().src_col }, _ => true }) })); }
                     let mut it = sm.tokens(); if let Some(t) = toks.last() { let (l, c) = t.get_dst(); chk("seek", it.seek(l, c) && it.next().map(|x| x.get_dst() > (l, c) || x.get_dst() == (l, c)).unwrap_or(true)); }
                 }
                 "history" => {  // C04 over histories of map-producing operations: after every step the tokens are ordered and lookups are right
@@ -1246,6 +1267,11 @@ fn run_api(r: &mut Rng, n: u64, group: &str) {
                     match sourcemap::SourceMapIndex::from_slice(&o) { Ok(back) => { chk("url survives write+read", back.get_section_count() == n && (0..n).all(|j| back.get_section(j).unwrap().get_url() == idx.get_section(j).unwrap().get_url() && back.get_section(j).unwrap().get_offset() == offs[j as usize]));
                             chk("lookups after write+read", qs.iter().zip(&before).all(|(q, b)| &back.lookup_token(q.0, q.1).map(|t| view(&t)) == b)); }
                         Err(_) => chk("index reads back", false) }
+                    // the same index written with its sections in another order: a reader puts them in offset order
+                    { let mut v: serde_json::Value = serde_json::from_slice(&o).unwrap();
+                      if let Some(a) = v.get_mut("sections").and_then(|x| x.as_array_mut()) { a.reverse(); if a.len() > 2 { a.swap(0, 1); } }
+                      match sourcemap::SourceMapIndex::from_slice(&serde_json::to_vec(&v).unwrap()) { Ok(back) => chk("sections listed out of order", (0..n).all(|j| back.get_section(j).map(|x| x.get_offset()) == Some(offs[j as usize])) && qs.iter().zip(&before).all(|(q, b)| &back.lookup_token(q.0, q.1).map(|t| view(&t)) == b)),
+                          Err(_) => chk("index with reordered sections reads", false) } }
                     // taking one section's map away: positions owned by that section resolve to nothing, all others are unchanged, flatten refuses
                     let taken = idx.get_section_mut(k).unwrap().get_sourcemap_mut().is_some();
                     let old = idx.get_section(k).unwrap().get_sourcemap().cloned();
@@ -1407,7 +1433,7 @@ fn run_order(r: &mut Rng, n: u64) {
 }
 // ---- C13: builder histories: interning, returned ids, finished map ----
 fn run_builder(r: &mut Rng, n: u64) {
-    let spool = ["a.js", "b.js", "", "a.js", "/abs/c.js", "https:g.js", "http://h/i.js"]; let npool = ["x", "y", "", "x"];
+    let spool = ["a.js", "b.js", "", "a.js", "/abs/c.js", "https:g.js", "http://h/i.js", "root/a.js", "root/root/b.js", "./a.js", "root"]; let npool = ["x", "y", "", "x"];
     for i in 0..n {
         let file0 = if r.below(2) == 0 { Some("out.js") } else { None };
         let mut b = sourcemap::SourceMapBuilder::new(file0);
@@ -1420,8 +1446,9 @@ fn run_builder(r: &mut Rng, n: u64) {
                 3 if nsrc > 0 => { let k = r.below(nsrc as u64) as u32; let c = match r.below(3) { 0 => None, 1 => Some(""), _ => Some("body") }; ops.push(format!("C{}:{}", k, opt_hex(c))); b.set_source_contents(k, c); rets.push("-".into()); }
                 4 => { let k = r.below(nsrc as u64 + 3) as u32; ops.push(format!("I{}", k)); b.add_to_ignore_list(k); rets.push("-".into()); }   // also ids whose source is added later (or never)
                 5 => { let f = [None, Some("x.js"), Some("")][r.below(3) as usize]; ops.push(format!("F{}", opt_hex(f))); b.set_file(f); rets.push("-".into()); }
-                6 => { let d = if r.below(3) == 0 { None } else { Some(1 + r.below(3)) }; ops.push(format!("D{}", d.map(|k| k.to_string()).unwrap_or("-".into())));
-                       b.set_debug_id(d.map(|k| format!("00000000-0000-0000-0000-0000000000{:02x}", k).parse().unwrap())); rets.push("-".into()); }
+                6 => { let d = if r.below(3) == 0 { None } else { Some(if r.below(3) == 0 { 11 + r.below(3) } else { r.below(4) }) }; ops.push(format!("D{}", d.map(|k| k.to_string()).unwrap_or("-".into())));
+                       // ids 0..3 are plain UUIDs (0 = the nil id), 11..13 carry the appendix "-2a": the appendix is part of the id
+                       b.set_debug_id(d.map(|k| format!("00000000-0000-0000-0000-0000000000{:02x}{}", k, if k > 10 { "-2a" } else { "" }).parse().unwrap())); rets.push("-".into()); }
                 _ => { let so = if r.below(5) == 0 { None } else { Some(spool[r.below(spool.len() as u64) as usize]) }; let na = if r.below(3) == 0 { Some(npool[r.below(npool.len() as u64) as usize]) } else { None };
                        let (dl, dc, sl, sc) = (r.below(3) as u32, r.below(6) as u32, r.below(5) as u32, r.below(5) as u32); let rg = r.below(6) == 0;
                        ops.push(format!("A{}:{}:{}:{}:{}:{}:{}", dl, dc, sl, sc, so.map(|s| format!("={}", hex(s.as_bytes()))).unwrap_or("-".into()), na.map(|s| format!("={}", hex(s.as_bytes()))).unwrap_or("-".into()), if rg { 1 } else { 0 }));
